@@ -15,8 +15,13 @@ CLAIMED = {
              "mirrored as well-founded recursions): for every valid whole-second point (3 representations, any offset, "
              "24:00, every year in Int), every exact duration of either sign and all 4 modes, the result denotes the "
              "instant shifted by exactly the duration's length, is valid with 0<=h<24, keeps representation and offset; "
-             "p - d = p + (-d). The model is tied to data.py by the differential correspondence; fractional (float) "
-             "operands are only observed to 1 us against exact rational arithmetic.",
+             "p - d = p + (-d). Fractions: C01_tick_over_rat / C01_add_exact_rat state the same for the model addExactQ, "
+             "which runs _tick_over and the exact part of __add__ statement by statement over exact rationals with the "
+             "minute/second slots possibly None (decimal-second, decimal-minute, decimal-hour forms; fractional "
+             "hours/minutes/seconds in the duration), and C01_rat_extends_int shows it coincides with the integer model on "
+             "whole-second input. Python computes in binary64: the rational model is tied to it by the addq correspondence "
+             "(representation, offset, slot pattern and instant to 1 us) - float rounding itself is observed, not proved; "
+             "that differential found and repaired F15 (a float remainder equal to its modulus).",
         design="DESIGN §8 C01",
         technique="Lean 4 proof (loop invariants over Int) + model/implementation correspondence"),
     "C02": dict(
@@ -72,23 +77,33 @@ CLAIMED = {
              "(start, start+d, ... / end, end-d, ...) as valid points in the anchor's representation and offset; n "
              "repetitions yield exactly n strictly increasing points including the anchor; start/second-point iterates "
              "like start/duration with the exact difference; one repetition or a zero interval yields exactly the anchor. "
-             "Month/year intervals: proved counter-witness for the bounded count (known finding F5, matched by its "
-             "mechanism), otherwise correspondence only.",
+             "Month/year intervals (Props/C12b, every non-negative nominal interval): one nominal addition moves every valid "
+             "point strictly forward; unbounded iteration is exactly repeated nominal addition (resp. subtraction from the "
+             "end), strictly monotone, valid, in the anchor's representation and offset; bounded iteration is exactly the "
+             "prefix of that series up to the derived bound, independent of fuel once it exceeds a stated bound. The bounded "
+             "COUNT / reaching the end anchor is false of the code for month/year intervals (known finding F5: two proved "
+             "counter-witnesses, matched by mechanism in the correspondence).",
         design="DESIGN §8 C12",
         technique="Lean 4 proof (induction over iteration, refinement to an arithmetic series of instants) + correspondence"),
     "C13": dict(
-        text="Theorems for exact intervals: get_next/get_prev give the point one interval away iff it is within bounds "
-             "(None at the ends), r[i] is the i-th iterated point / IndexError, get_is_valid is membership of the iterated "
-             "series by instant (early exits sound), and the closed form of get_first_after is the earliest member strictly "
-             "later than the probe, the start before the series, None after it. Month/year intervals: correspondence only.",
+        text="Theorems for exact intervals, every notation, bounded and unbounded: get_next/get_prev give the point one "
+             "interval away iff it is within bounds (None at the ends); r[i] is the i-th iterated point / IndexError "
+             "(C13_getitem*, incl. duration/end which iterates forward from the derived start when bounded and backwards "
+             "when unbounded); get_is_valid is membership of the iterated series by instant for every notation "
+             "(C13_is_valid_iff_iterated), with the closed characterisation (in bounds and a multiple of the interval from "
+             "the anchor) and the amount of iteration that suffices (early exits sound); get_first_after: closed form, the "
+             "start before the series, None after it, and the result is the LEAST member strictly later than the probe "
+             "(C13_first_after_least). Month/year intervals: correspondence only.",
         design="DESIGN §8 C13",
         technique="Lean 4 proof + model/implementation correspondence"),
     "C14": dict(
-        text="Theorems: shifting a start/duration recurrence by an exact duration is the recurrence with the same "
-             "repetitions and interval and the start moved, so every point moves by exactly that length; single-point "
-             "recurrences keep their anchor (F4); (r+x)-x == r; equality holds exactly when repetitions, start, end "
-             "(by instant) and interval agree; equal recurrences have equal hash keys. Other notations and the text round "
-             "trip are covered by the correspondence (rshift/req/rhasheq/rtext ops), the latter not yet modelled.",
+        text="Theorems for exact intervals and exact shifts of either sign, in every notation (start/duration, "
+             "duration/end, start/second-point), bounded and unbounded, and single-point recurrences (F4): r + x succeeds, "
+             "keeps repetitions, notation and an interval of the same length, and its k-th iterated point is the k-th point "
+             "of r moved by exactly x's length, valid, same representation and offset; (r + x) + (-x) == r; equality holds "
+             "exactly when repetitions, start, end (by instant) and interval agree; equal recurrences have equal hash keys. "
+             "Month/year intervals and the text round trip are covered by the correspondence (rshift/req/rhasheq/rtext), "
+             "the latter not yet modelled.",
         design="DESIGN §8 C14",
         technique="Lean 4 proof + model/implementation correspondence"),
     "C15": dict(
@@ -166,16 +181,18 @@ CLAIMED = {
         technique="Lean 4 proof (generic template round trip by induction; table facts by kernel evaluation over templates "
                   "regenerated from the live regexes) + three-way correspondence"),
     "C08": dict(
-        text="Theorem C08_default_format over the Lean model of _get_dump_format: for every whole-second point in the "
-             "three representations the default format is the signed-iff-expanded year digits, the extended complete "
-             "date, Thh:mm:ss and Z or +hh:mm (negative year without expanded digits = the documented OverflowError); "
-             "together with C07's template round trip and first-match theorems (the default format is a listed form). "
-             "PARTIAL: the composed statement parse(str(p)) = p is decided by the correspondence (ops tround, tdump: "
-             "implementation vs Lean model str/dump/parse vs an oracle that formats the expected text itself), over all "
-             "representations, 24:00, every offset, year extremes per expanded-digit setting, decimal forms of <= 6 "
-             "digits, custom complete formats with symbolic and literal zones; not yet a single theorem.",
+        text="Theorems over the Lean model of TimePoint.__str__/_get_dump_format/TimePointDumper.dump (the dumper's "
+             "substitution rules regenerated from the live _rec_formats) and of TimePointParser.parse (templates regenerated "
+             "from the live compiled regexes): C08_str - for every valid whole-second point (3 representations, 4 modes, "
+             "every legal offset incl. -00:30, 24:00:00) whose year the agreed expanded digits can spell, str(p) is exactly "
+             "the specified ISO 8601 text stdText; C08_parse - a parser with the same expanded digits (any allow_truncated, "
+             "any default zone) decodes that text to exactly p, field for field; C08_roundtrip - parse(str(p)) carries "
+             "exactly p's representation, offset and values and str is a fixpoint; C08_default_format; a witness that "
+             "outside the agreed digits the round trip does not apply. PARTIAL: decimal hour/minute/second forms and custom "
+             "dump formats (other representation, literal zones) are decided by the three-way correspondence (tround, "
+             "tdump, tdumpf: implementation vs Lean model vs an oracle that formats the expected text itself), floats observed.",
         design="DESIGN §8 C08, §13",
-        technique="Lean 4 proof (format selection; template round trip from C07) + three-way correspondence"),
+        technique="Lean 4 proof (symbolic execution of the dumper's rule chain over an opaque digit block + parser refinement, composed through one specified text) over tables regenerated from the source + three-way correspondence"),
     "C10": dict(
         text="Theorems over the Lean model of Duration.__str__ and DurationParser.parse, whose three regular expressions "
              "are regenerated from the live compiled patterns and run by a leftmost-greedy backtracking matcher: "
